@@ -219,3 +219,22 @@ def run_render(rep, ctx, label, observers, n_quick, n_thorough, corr_fraction=1.
                 'and structure-aware edits (word changes, inserted/deleted/moved blocks, inline wrappers, retargeted links) plus hand-picked '
                 'pairs from past findings, plus a small-scope EXHAUSTIVE part: every page of <= 2 nodes (depth 2) over 5 leaves x 7 wrappers '
                 'against every other one (every third page in the quick tier; thorough adds all 855 three-node pages against themselves); non-trivial = the two documents differ; distinct by document pair')
+
+
+
+def replay_known(rep, prop, failures):
+    """Listed known findings of a render property: each listed input is replayed on every run and reported (KNOWN-FINDING) while
+    the observer still sees it fail; nothing but exactly these inputs is suppressed."""
+    from common import load_known_findings
+    for kf in load_known_findings(prop):
+        inp = kf['input']
+        try:
+            r = rc.render(inp['a_text'], inp['b_text'], include=inp.get('include', 'all'), **({'url_rules': inp['url_rules']} if 'url_rules' in inp else {}))
+            fails = failures(inp['a_text'], inp['b_text'], r)
+        except Exception as e:  # noqa
+            fails = ['raised %r' % e]
+        rep.count(('known', inp['a_text'], inp['b_text']), True)
+        if fails:
+            rep.known_finding(kf['what'])
+        else:
+            rep.extra.setdefault('known_findings_no_longer_failing', []).append(kf['id'])
